@@ -44,8 +44,8 @@ def main():
     for l, r in pairs:
         uniq[str(l) + str(r)] = (l, r)
     pairs = list(uniq.values())
-    r = semmc.run("C18_laws", pairs=pairs, maxlen=4 if quick else 5)
-    rep.add_mc("%d law instances (operands depth<=1, bounds 0..3) x all traces over {-2,1,3}^2" % len(pairs), r)
+    r = semmc.run("C18_laws", pairs=pairs, maxlen=4 if quick else 5, invariants=("PairsEq", "PairsEqDense"))
+    rep.add_mc("%d law instances (operands depth<=1, bounds 0..3) x all traces over {-2,1,3}^2, for Sem!Sig and for Dense!SigC" % len(pairs), r)
     if r["violated"]:
         rep.mc_violation("C18_laws", r)
 
